@@ -101,6 +101,12 @@ def r1_no_injection(rep, src, M):
                 return val
             raise AnalysisError('unexpected slot %s in the dump template' % p)
         Tm, Te = strlang.template_langs(term, alpha, slot, {'key': 'key'}, ['key'])
+        w = Te.not_subset_witness(M.pat(r'(?s:.*)\n'))
+        if w is not None:
+            rep.fail('C08.R1', fdump.site, label + ': entry ends with a newline',
+                     'the dumped entry %r does not end with a newline: the next field would continue this line' % w, where=fdump.where)
+        else:
+            rep.ok('C08.R1', fdump.site, label + ': entry ends with a newline', 'T ⊆ Σ*\\n')
         for mode_name, universal in (('splitlines', True), ('file-lines', False)):
             reader_line_checks(rep, M, 'C08.R1', fval.site, label, Te, Tm, mode_name, universal, fval.where, True)
     if n < 2:
